@@ -7,6 +7,7 @@ CONSTANTS MaxSteps, AllowShutdown
 
 VARIABLES log, steps
 
+MCDup == [t \in Txns |-> IF t = "t2" THEN 1 ELSE 0]
 MCWr == [t \in Txns |-> CASE t = "t1" -> {"k1"} [] t = "t2" -> {"k1", "k2"} [] t = "t3" -> {"k1"} [] OTHER -> {"k2"}]
 
 (* one writer of k1, the others write k2 (disjoint from the first) *)
@@ -33,18 +34,18 @@ MCNext ==
 StepBound == steps <= MaxSteps
 
 Export ==
-    PrintT("REPLAY " \o ToJson([wr |-> Wr, steps |-> log',
+    PrintT("REPLAY " \o ToJson([wr |-> Wr, dup |-> Dup, steps |-> log',
                                  expect |-> [res |-> res', start |-> start', seq |-> seq', visible |-> visible',
                                              pc |-> pc', kept |-> keptSince']]))
 (* Counterexample export: the first state violating P prints its schedule and stops TLC.        *)
 (* Used with Variant = "orig" to derive directed schedules for defects that have been repaired:  *)
 (* replayed on the repaired code they must NOT reproduce (checks/c04.py).                        *)
-Cex(name, P) == P \/ (PrintT("REPLAY " \o ToJson([cex |-> name, wr |-> Wr, steps |-> log,
+Cex(name, P) == P \/ (PrintT("REPLAY " \o ToJson([cex |-> name, wr |-> Wr, dup |-> Dup, steps |-> log,
                                                      expect |-> [res |-> res]])) /\ FALSE)
 CexFCW == Cex("FCW", FCW)
 (* the overflowing enqueue itself is the next step of the transaction that is about to panic *)
 CexNoOverflow ==
-    NoOverflow \/ (PrintT("REPLAY " \o ToJson([cex |-> "NoOverflow", wr |-> Wr,
+    NoOverflow \/ (PrintT("REPLAY " \o ToJson([cex |-> "NoOverflow", wr |-> Wr, dup |-> Dup,
                         steps |-> Append(log, St("Critical", CHOOSE t \in Txns : Overflow(t), 0)),
                         expect |-> [res |-> res]])) /\ FALSE)
 CexFailedInvisible == Cex("FailedInvisible", FailedInvisible)
